@@ -116,8 +116,13 @@ func runWS(rec *recorder, sc *Scenario) error {
 	}
 	nm := map[uuid.UUID]*planRun{}
 	sp := &spy{Vault: v, s: s, nm: nm}
+	agedRestart := false
 	mkOpts := func(recovery bool) []coercion.Option {
 		o := []coercion.Option{}
+		if agedRestart {
+			// every plan that is Running at this restart is older than the maximum: closed, not resumed (C11)
+			o = append(o, coercion.WithMaxLastUpdate(time.Millisecond))
+		}
 		if maxSubmit > 0 {
 			o = append(o, coercion.WithMaxSubmit(maxSubmit))
 		}
@@ -328,7 +333,7 @@ func runWS(rec *recorder, sc *Scenario) error {
 				do(cs, cws, c, "wait", n-1, !recovery)
 			}()
 			<-started
-		case name == "restart" || name == "restart-norec":
+		case name == "restart" || name == "restart-norec" || name == "restart-aged":
 			if err := quiesce(); err != nil {
 				return err
 			}
@@ -392,7 +397,15 @@ func runWS(rec *recorder, sc *Scenario) error {
 					}
 				}
 			}
-			recovery = name == "restart"
+			recovery = name != "restart-norec"
+			agedRestart = name == "restart-aged"
+			aged := make([]bool, wsPlans)
+			for pi := range plans {
+				aged[pi] = agedRestart && st[pi] == "RU"
+			}
+			if agedRestart {
+				time.Sleep(5 * time.Millisecond)
+			}
 			rec.do(func() ev {
 				for pi, pp := range plans {
 					if pp.pr != nil {
@@ -410,10 +423,10 @@ func runWS(rec *recorder, sc *Scenario) error {
 			base := append([]writeRec(nil), writes[:k]...)
 			sp.writes = base
 			rcv := recovery
-			s.emit(0, func() ev { return ev{"ev": "XRestart", "st": st, "ad": ad, "idx": ix, "recovery": rcv, "k": k, "of": len(writes)} })
+			s.emit(0, func() ev { return ev{"ev": "XRestart", "st": st, "ad": ad, "idx": ix, "aged": aged, "recovery": rcv, "k": k, "of": len(writes)} })
 			mu.Lock()
 			for pi, pp := range plans {
-				pp.started = recovery && st[pi] == "RU"
+				pp.started = recovery && st[pi] == "RU" && !aged[pi]
 			}
 			mu.Unlock()
 			ws, err = coercion.New(ctx, reg, &lagVault{spy: sp, stale: stale}, mkOpts(recovery)...)
